@@ -113,7 +113,9 @@ def stepP (s : St) : St :=
     if s.cq > 0 then { s with cq := 0, p := .idle, oblig := false, returns := s.returns + 1 }
     else { s with p := .c3 inf }
   | .c3 inf =>
-    -- swap(POLLING): awoken ⇒ poll with a zero timeout
+    -- swap(POLLING): awoken ⇒ poll with a zero timeout. (Since d4303dd the call also does not
+    -- wait when futures are waiting for a submission slot — `Model/Blocked.lean`; there are none
+    -- in this model, and not waiting only ever removes the `.waiting` state from a run.)
     let awoken := s.word / 2 % 2 == 1
     { s with word := POLLING, p := .e3 (inf && !awoken) (toSubmit s) }
   | .e3 block n =>
